@@ -278,7 +278,7 @@ func inReqRange(c *an.Ctx, v ssa.Value, cmps []an.Cmp, depth int) bool {
 	}
 	lo, hi := false, false
 	for _, cmp := range cmps {
-		oc, ok := cmp.Oriented(func(x ssa.Value) bool { return x == v })
+		oc, ok := cmp.Oriented(func(x ssa.Value) bool { return x == v || an.Strip(x) == v })
 		if !ok {
 			continue
 		}
@@ -308,6 +308,27 @@ func inReqRange(c *an.Ctx, v ssa.Value, cmps []an.Cmp, depth int) bool {
 	return lo && hi
 }
 
+// inReqRangeOnPaths: the stored delay was computed elsewhere and carried here through a request/parameter struct, so no
+// dominating fact bounds it at the store – but every path from its computation to the store crosses an edge on which it is
+// known to lie in [0, MaxReqTimeout] (the range check sits between the two).
+func inReqRangeOnPaths(c *an.Ctx, fn *ssa.Function, st *ssa.Store) bool {
+	v := an.Strip(st.Val)
+	def, ok := v.(ssa.Instruction)
+	if !ok || def.Parent() != fn || def.Block() == nil {
+		return false
+	}
+	if _, isPhi := v.(*ssa.Phi); isPhi {
+		return false
+	}
+	q := &an.PathQ{Fn: fn, StartAfter: []ssa.Instruction{def}, FullOnly: true,
+		Sink: func(in ssa.Instruction, _ *an.PathState) bool { return in == ssa.Instruction(st) },
+		CutEdge: func(e an.Edge, _ *an.PathState) bool {
+			return inReqRange(c, v, an.CmpsOnEdge(e), 1)
+		}}
+	_, found := q.Find()
+	return !found
+}
+
 func c04range(c *an.Ctx) {
 	defF := c.P.Field("nsqd", "Message", "deferred")
 	fatal := c.P.Func("internal/protocol", "NewFatalClientErr")
@@ -328,7 +349,7 @@ func c04range(c *an.Ctx) {
 				return
 			}
 			n++
-			good := inReqRange(c, st.Val, an.CmpsAt(st.Block()), 0)
+			good := inReqRange(c, st.Val, an.CmpsAt(st.Block()), 0) || inReqRangeOnPaths(c, fn, st)
 			c.Check(good, fn, "deferred delay within [0, MaxReqTimeout]", st.Pos(), "",
 				"a deferred publish can store a delay that is not proven to satisfy 0 <= d <= opts.MaxReqTimeout (reject region must be exactly d < 0 || d > MaxReqTimeout, the same for DPUB and /pub?defer)")
 		})
